@@ -55,8 +55,17 @@ Fixpoint mentions (i : nat) (e : expr) : bool :=
   | _ => false
   end.
 
+(* vm_compute and the extracted code are call-by-value: [a && b] and
+   [existsb]/[forallb] would evaluate everything; these variants stop early
+   (they are equal to the standard ones, SatAbsProofs.v) *)
+Notation "a &&& b" := (if a then b else false) (at level 40, left associativity).
+Fixpoint exists_lazy {A} (f : A -> bool) (l : list A) : bool :=
+  match l with [] => false | a :: r => if f a then true else exists_lazy f r end.
+Fixpoint forall_lazy {A} (f : A -> bool) (l : list A) : bool :=
+  match l with [] => true | a :: r => if f a then forall_lazy f r else false end.
+
 Definition prune_ok (cs : list expr) (pe : penv) : bool :=
-  forallb (fun c => negb (is_vfalse (peval pe c))) cs.
+  forall_lazy (fun c => negb (is_vfalse (peval pe c))) cs.
 
 Definition dom_of (d : vdecl) : list Z :=
   match d with DBool => [0; 1] | DInt lo hi => zrange lo hi end.
@@ -91,13 +100,13 @@ Section Search.
     match plan with
     | [] => leaf pe
     | (v, dom, cs) :: r =>
-        existsb (fun z => let pe' := pset pe v z in prune_ok cs pe' && search r pe') dom
+        exists_lazy (fun z => let pe' := pset pe v z in prune_ok cs pe' &&& search r pe') dom
     end.
 End Search.
 
 Definition leaf_ok (st : state) (kids : list nat) (ans : list Z) (pe : penv) : bool :=
   let en := env_of pe in
-  in_bounds en st && satisfies no_graph en st && zlist_eqb (reads st en kids) ans.
+  in_bounds en st &&& forall_lazy (holds no_graph en) (cons st) &&& zlist_eqb (reads st en kids) ans.
 
 Definition full_order (st : state) (kids order : list nat) : list nat :=
   order ++ filter (fun i => negb (mem i kids) && negb (mem i order)) (seq 0 (length (vars st))).
@@ -107,7 +116,7 @@ Definition init_penv (n : nat) (kids : list nat) (ans : list Z) : penv :=
 
 Definition sat_abs_plan (st : state) (kids : list nat) (plan : list step) (ans : list Z) : bool :=
   let pe0 := init_penv (length (vars st)) kids ans in
-  Nat.eqb (length kids) (length ans) && prune_ok (cons st) pe0 &&
+  Nat.eqb (length kids) (length ans) &&& prune_ok (cons st) pe0 &&&
   search (leaf_ok st kids ans) plan pe0.
 
 Definition sat_abs (st : state) (kids order : list nat) (ans : list Z) : bool :=
